@@ -22,6 +22,64 @@ func (w *World) fit(in ssa.Instruction, k ikind, x *Int, what string) *Int {
 	return w.opaqueInt(k.rng(), "wrapped "+what)
 }
 
+// unw returns the unwrapped value of a word (see Int.pend).
+func unw(x *Int) (*Form, Itv) {
+	if x.pend != nil {
+		return x.pend.d, x.pend.dR
+	}
+	return x.F(), x.R
+}
+
+func firstPend(xs ...*Int) *pending {
+	for _, x := range xs {
+		if x.pend != nil {
+			return x.pend
+		}
+	}
+	return nil
+}
+
+// fitDefer is fit for the operations that commute with reduction modulo 2^w
+// (+, -, multiplication by a constant, <<): x is the UNWRAPPED result.  In
+// strict mode a result that may wrap is not reported at once: the word is
+// d - 2^w*n with the obligation pending, discharged if a later operation of
+// the same kind brings the unwrapped value back into range, failed (at the
+// first wrapping instruction) by any other use of the word (World.settle).
+func (w *World) fitDefer(in ssa.Instruction, k ikind, x *Int, what string, prev *pending) *Int {
+	if x.R.Leq(k.rng()) {
+		if prev != nil {
+			w.Stats["wrap-arounds that cancel inside one expression (exact)"]++
+		}
+		return x
+	}
+	if k.isBool {
+		return w.fit(in, k, x, what)
+	}
+	if w.WrapMode {
+		return w.wrapInto(in, k, x, what)
+	}
+	res := *w.wrapInto(in, k, x, what)
+	p := &pending{d: x.F(), dR: x.R, in: in, what: what, r0: x.R, k: k}
+	if prev != nil {
+		p.in, p.what, p.r0, p.k = prev.in, prev.what, prev.r0, prev.k
+	}
+	res.pend = p
+	res.wr = nil
+	return &res
+}
+
+// settle is called when a word is used by anything but +, -, *const, <<: a
+// pending wrap-around is then a defect.
+func (w *World) settle(x *Int) *Int {
+	if x.pend == nil {
+		return x
+	}
+	w.fail(x.pend.in, "%s may wrap: the result ranges over %s, outside %s", x.pend.what, x.pend.r0, kindName(x.pend.k))
+	c := *x
+	c.pend = nil
+	return &c
+}
+
 func kindName(k ikind) string {
 	if k.isBool {
 		return "bool"
@@ -249,19 +307,28 @@ func (w *World) binop(in ssa.Instruction, op token.Token, x, y *Int, xt, rt type
 	}
 	switch op {
 	case token.ADD:
-		ar := x.R.Add(y.R)
-		return w.fit(in, k, w.mkInt(x.F().Add(y.F()), &ar), "addition")
+		xf, xr := unw(x)
+		yf, yr := unw(y)
+		ar := xr.Add(yr)
+		return w.fitDefer(in, k, w.mkInt(xf.Add(yf), &ar), "addition", firstPend(x, y))
 	case token.SUB:
-		ar := x.R.Sub(y.R)
-		return w.fit(in, k, w.mkInt(x.F().Sub(y.F()), &ar), "subtraction")
+		xf, xr := unw(x)
+		yf, yr := unw(y)
+		ar := xr.Sub(yr)
+		return w.fitDefer(in, k, w.mkInt(xf.Sub(yf), &ar), "subtraction", firstPend(x, y))
 	case token.MUL:
-		ar := x.R.Mul(y.R)
 		switch {
 		case aok:
-			return w.fit(in, k, w.mkInt(y.F().ScaleInt(a), &ar), "multiplication")
+			yf, yr := unw(y)
+			ar := x.R.Mul(yr)
+			return w.fitDefer(in, k, w.mkInt(yf.ScaleInt(a), &ar), "multiplication", firstPend(y))
 		case bok:
-			return w.fit(in, k, w.mkInt(x.F().ScaleInt(b), &ar), "multiplication")
+			xf, xr := unw(x)
+			ar := xr.Mul(y.R)
+			return w.fitDefer(in, k, w.mkInt(xf.ScaleInt(b), &ar), "multiplication", firstPend(x))
 		}
+		x, y = w.settle(x), w.settle(y)
+		ar := x.R.Mul(y.R)
 		if w.Monomials {
 			if p, ok := w.product(x, y); ok {
 				return w.fit(in, k, p, "multiplication")
@@ -274,7 +341,9 @@ func (w *World) binop(in ssa.Instruction, op token.Token, x, y *Int, xt, rt type
 		w.Stats["products of two forms (opaque)"]++
 		return w.opaqueInt(ar, "product of two non-constant forms")
 	case token.SHL:
+		y = w.settle(y)
 		if !bok {
+			x = w.settle(x)
 			return w.opaqueInt(k.rng(), "shift by a non-constant count")
 		}
 		if b.Sign() < 0 {
@@ -304,8 +373,9 @@ func (w *World) binop(in ssa.Instruction, op token.Token, x, y *Int, xt, rt type
 				return w.fromLayout(&r)
 			}
 		}
-		ar := Itv{new(big.Int).Lsh(x.R.Lo, s), new(big.Int).Lsh(x.R.Hi, s)}
-		res := w.fit(in, k, w.mkInt(x.F().Shl(s), &ar), "left shift")
+		xf, xr := unw(x)
+		ar := Itv{new(big.Int).Lsh(xr.Lo, s), new(big.Int).Lsh(xr.Hi, s)}
+		res := w.fitDefer(in, k, w.mkInt(xf.Shl(s), &ar), "left shift", firstPend(x))
 		if ar.Leq(k.rng()) && res.F().IsConst() == false {
 			// the unwrapped value is a multiple of 2^s
 			c := *res
